@@ -6,7 +6,6 @@ A generated model is kept as a plain JSON-able *spec* (own data, not cobra objec
 from which both the cobra model (`build`) and the exact LPs (`fba_exact`, `moma_exact`, `pfba_exact`) are derived
 independently.  Which reactions a gene knock-out switches off is decided by `bcc.c07_rules.holds` on the spec's tree.
 """
-import math
 from fractions import Fraction
 
 from bcc import c07_rules as R
@@ -95,10 +94,6 @@ def random_spec(rng, safe=False):
     return {"mets": [x.id for x in m.metabolites], "rxns": rx,
             "objective": {r.id: float(c) for r, c in linear_reaction_coefficients(m).items()},
             "direction": m.objective_direction, "genes": GENE_NAMES[:ng]}
-
-
-def _f(x):
-    return float(x)
 
 
 def jsonable(spec):
